@@ -1636,6 +1636,11 @@ struct Value {
             }
 
             case QNumberType::Real: {
+                if (number.Real >= 9223372036854775808.0) {
+                    // Above the signed range: convert as unsigned (2^63 .. 2^64-1).
+                    return SizeT64(number.Real);
+                }
+
                 return QNumber64{SizeT64I(number.Real)}.Natural;
             }
 
